@@ -338,6 +338,7 @@ def run(run):
     preds = [f"pred:{f}:{c}" for f in forms for c in (("id", "cols_ub") if run.tier == "quick" else ("id", "cols_ub", "sum_u", "gb"))]
     cross = [f"g:{op}:{c}" for op in CROSS for c in ("filter_b", "filter_a_proj")] + [f"g:{op}:f_and:{c}" for op in CROSS for c in ("id", "cols_ub")] + [f"g:f_or:{op}:{c}" for op in CROSS for c in ("filter_b",)]
     joins = [n for n, p in C.PROGRAMS.items() if "joinpred" in p.tags] + [n for n in C.PROGRAMS if n.startswith(("filter", "merge_filter", "mpred", "pipe_proj_merge_filter"))]
+    joins += [n for n, p in C.PROGRAMS.items() if p.tags & {"nonrowwise", "valuechange"}]
     if run.tier == "quick":
         cases = K.standard_cases(preds, ["range"], [("np", 3, True)]) + K.standard_cases(cross + joins, ["range"], [("np", 3, True), ("np", 2, False)])
     else:
